@@ -9,6 +9,7 @@ ASSUMPTIONS = [
     "the UDP receive window (4096 segments) and the retransmission timers/limits are not modelled: retransmission is a nondeterministic step, so every timing is covered, but 'too many retransmissions' is not",
     "C03_tcp_drained_partial / C03_udp_lossless_partial carry the hypotheses gap = false and ooo = false (ghost flags of the model: the close request was acted upon when every lower-numbered segment had arrived in order); that a TCP stream whose queue was not discarded always satisfies them is argued in the report, not proved",
     "the delivery-time transitions apply recv_input when a segment is delivered; that the code's hand-off through the bounded channel recvChan (blocking send, FIFO, close requests included) gives the same order for every capacity and interleaving is C03_handoff_in_order; the capacities themselves (recvChan 256, recvQueue 4096) are exercised by the receiver-backlog scenarios of the driver, not modelled",
+    "TCP lock discipline: OStart/ODeq/OOut make 'in flight inside output()' explicit; the underlay's sendMutex is the side condition 'nothing in flight' of the fallback step; a write stall is OOut not being scheduled; the starved schedule of C03_backpressure_tcp_starved_refuted (no OStart/ODeq during the whole wait) remains a limit of the model on the code as it is and is never produced by the driver",
     "the Read race (c) needs a goroutine to be descheduled for more than 1 ms between two adjacent statements; it is shown in the model and by an injected pause, not by the driver on the unmodified tree",
     "scenarios run under Go's faketime runtime; the close-wait literals (1000 x 1 ms) are read from the syntax tree of session.go and compared with the wait measured on the compiled code",
 ]
